@@ -12,8 +12,12 @@ three-way: harness/C14/g.c (no libusual header) calls glibc with the same argume
 """
 import itertools
 import os
+import sys
 import vf
 import c14_cfg
+
+sys.path.insert(0, os.path.join(vf.VERIF, "extract"))
+import c2lean  # noqa: E402
 
 PID = "C14"
 PROP_MODULES = ["UsualProofs.Props.C14"]
@@ -30,7 +34,8 @@ def build(ck):
     if nloop != 2:
         ck.broken.append("C-tie: usual/bits.h no longer has the two builtin/loop #if lines (loop variant not built)")
         ck.proof_ok = False
-    ck.build_proofs(PROP_MODULES, driver="drv_c14")
+    # T-tie: compat memrchr re-translated into lean/Usual/Gen/C14T.lean, UsualProofs/Bridge/C14T.lean re-checked
+    ck.build_proofs(PROP_MODULES + c2lean.ttie(ck, vf, PID), driver="drv_c14")
     inc = ["-I" + cfgdir, "-I" + vf.REPO]
     blo = ck.cc(os.path.join(ck.bdir, "bl.o"), [os.path.join(vf.HARNESS, PID, "bl.c")],
                 flags=["-c", "-I" + loopdir] + inc, include_repo=False)
@@ -598,14 +603,14 @@ def run(ck):
 
 
 PARTIAL = [
-    "fnmatch_sound_complete is about the reference matcher (tokenize + refMatch) for flag sets without FNM_PERIOD; "
-    "for the mirror of the code's loop (wfn) soundness (match reported => declarative match, all flags) and the "
-    "bracket walk (match_class = parse + membership) are proved; completeness of the single-retry loop is compared "
-    "on every run, not proved; with FNM_PERIOD the specification IS the mirror of the code",
+    "fnmatch: nothing compared-only any more — the mirror of the code's loop (wfn) is proved sound and complete "
+    "against the declarative semantics (Matches without FNM_PERIOD; position-aware MatchesP, which states the "
+    "leading-period rule and the code's `*.` entry rule, for all flag sets); what remains assumed is the model "
+    "of iswctype/towupper for ASCII and mbstr_decode (UTF-8) underneath",
     "timegm, getline, mbsnrtowcs, asprintf depend on libc services that are parameters of the models "
     "(mktime, getc, mbrtowc, vsnprintf); their behaviour is assumed as modelled",
-    "pton6: result shape + full round trip pton6(ntop6 a) = a proved; no theorem about the complete input "
-    "grammar (upper case, leading zeros, rejected forms) — those are compared by the harness",
+    "pton4/pton6: complete accepted grammars proved (pton4_spec, pton6_spec); ntop6: canonical run selection, "
+    "length bound and round trip proved, the exact hex/decimal rendering is part of the model (compared)",
 ]
 
 
